@@ -47,11 +47,11 @@ prop('C01', src='props/c01_roundtrip.cpp',
      plan={'quick': [{'variant': 'asan', 'workers': 16}],
            'thorough': [{'variant': 'asan', 'workers': 16}, {'variant': 'rel', 'workers': 16}]},
      rule='rapidcheck: (secret, birthday, enabled mask, user features, encrypted flag, coin, language, construction path create|load, keygen coin/size) from three sub-generators '
-          '(uniform 80%; 15 data words drawn from the 1..48 longest words of ja/ko/fr/es 10%; 12-15 data words drawn from the 1275 indices where both Chinese lists hold the same character 10%). '
+          '(uniform; 15 data words drawn from the 1..48 longest words of ja/ko/fr/es; 12-15 data words drawn from the 1275 indices where both Chinese lists hold the same character) and a fourth one: seeds patterned at the level of the 16 word indices (all data words equal, two values only, one value at several positions, runs, boundary indices 0/1/1023/1024/2047..., adjacent equal words, first = last, sparse bit patterns; coin equal to a shown word or its complement; last data word solved so that the check word is 0, 2047, equal to a data word or to the coin). '
           'Oracle: encode -> decode_explicit(same coin, language) is OK and equal in store bytes, birthday, get_feature under 9 masks, is_encrypted and the recorded keygen KDF arguments; '
           'decode (auto) is OK with the same language and seed, or MULT_LANG only if decode_explicit in another registered language does not answer LANG. The first case of every worker is a cold start: a child forked before the process has made any checksum-related call decodes phrases the parent creates afterwards, one per language. '
           'Non-trivial = coin>2 or user features or encrypted or language in {ja,ko,es,fr} or ambiguous or NFKD length >= 300; distinct = FNV-1a of the serialised case.',
-     required_classes={'any': ['ambiguous(MULT_LANG)', 'long(internal>=300)', 'encrypted+userfeatures', 'coin>2', 'path:load', 'path:create', 'cold-start(decode is the first checksum-related call of a process)']},
+     required_classes={'any': ['ambiguous(MULT_LANG)', 'long(internal>=300)', 'encrypted+userfeatures', 'coin>2', 'path:load', 'path:create', 'cold-start(decode is the first checksum-related call of a process)', 'gen:patterned-word-indices']},
      assumptions=['seeds are built through create(+crypt) or load of the model image; a case whose construction fails is discarded and counted'],
      technique='property-based testing (rapidcheck): generated seeds x languages x coins, encode/decode round-trip oracle under ASan+UBSan with real NFC/NFKD',
      level_text='Randomised exploration with three biased generators (uniform, longest Korean/Japanese words, Chinese-overlap words); every case compares the decoded seed with the original in all observable respects and checks the auto-detection verdict model-free. Sampling only: 2^165 seeds cannot be enumerated, so the level is exploration.')
@@ -59,7 +59,7 @@ prop('C01', src='props/c01_roundtrip.cpp',
 prop('C02', src='props/c02_checksum.cpp',
      plan={'quick': [{'variant': 'asan', 'workers': 16}], 'thorough': [{'variant': 'asan', 'workers': 16, 'timeout': 14400}]},
      rule='(1) exhaustive arithmetic core: for every field element e (2048) and phrase position p (16) the phrase whose only non-zero data coefficient is e at p must validate with check word e*2^p (GF(2^11), x^11+x^2+1) and fail with two other check words; '
-          '(2) rapidcheck phrases (seed x language x coin, words taken from the library via the coin-XOR table): every position x replacement word (all 2047 when full=1, every 8th / 64th otherwise), all <=120 swaps of unequal words, all 2048 check-word candidates, '
+          '(2) rapidcheck phrases (seed x language x coin, words taken from the library via the coin-XOR table; one seed in six is patterned at the level of the word indices - equal words, boundary indices, check word equal to 0 / 2047 / a data word / the coin): every position x replacement word (all 2047 when full=1, every 8th / 64th otherwise), all <=120 swaps of unequal words, all 2048 check-word candidates, '
           'and the stored image with each of the 2047 other check values. Oracle: exactly CHECKSUM from decode_explicit, never OK from decode/load, exactly one validating check word. '
           'Each mutated phrase is one non-trivial case; distinct = (phrase case fingerprint, mutation number).',
      required_classes={'any': ['core', 'substitutions', 'swaps', 'checkword-candidates', 'images-with-altered-check-value']},
@@ -69,7 +69,7 @@ prop('C02', src='props/c02_checksum.cpp',
 prop('C03', src='props/c03_layout.cpp',
      plan={'quick': [{'variant': 'asan', 'workers': 16}], 'thorough': [{'variant': 'asan', 'workers': 16}, {'variant': 'rel', 'workers': 16}]},
      rule='(i) exhaustive: all payloads of weight 0, 1 and 2 over the 164 holdable payload bits (150 secret, 4 feature bits, 10 birthday bits; the reserved feature bit cannot be held by any seed) x every registered language x coins {0,1,1024,2047}; '
-          '(ii) rapidcheck random (secret, birthday, features, coin, language, enabled mask). Oracle: polyseed_encode output is byte-equal to the phrase of the independent reference model '
+          '(ii) rapidcheck random (secret, birthday, features, coin, language, enabled mask), one case in six with seeds patterned at the level of the 16 word indices (all data words equal, two values only, one value at several positions, runs, boundary indices 0/1/1023/1024/2047..., adjacent equal words, first = last, sparse bit patterns; coin equal to a shown word or its complement; last data word solved so that the check word is 0, 2047, equal to a data word or to the coin). Oracle: polyseed_encode output is byte-equal to the phrase of the independent reference model '
           '(bit-indexed packing, carry-less GF check value, coin XOR on word 2, golden word list, specification separator, NFC for es/fr/ja/ko), returned length = strlen, store bytes 30-31 = LE16(0x7000|check); '
           'purity: same abstract seed via create and via load, after other encodes, gives the identical string. Every case is non-trivial (conformance); distinct = case fingerprint.',
      required_classes={'any': ['encrypted', 'userfeatures', 'birthday>511', 'coin:>=1024', 'purity:create-vs-load', 'purity:after-feature-mask-change']},
@@ -79,7 +79,7 @@ prop('C03', src='props/c03_layout.cpp',
 prop('C05', src='props/c05_coin.cpp',
      plan={'quick': [{'variant': 'asan', 'workers': 16}], 'thorough': [{'variant': 'asan', 'workers': 16, 'timeout': 14400}]},
      rule='(1) exhaustive coin table: for k seeds (2 quick / 24 thorough, language rotating with the seed) every ordered pair (A,B), A != B, of the 2048 coins: decode_explicit(phrase_A, B) = CHECKSUM, decode_explicit(phrase_A, A) = OK and the same seed; for a 1/64 sample also decode(auto) != OK and phrases for A and B differ in word 2 only; '
-          '(2) rapidcheck random (seed, language, A, B) with one-bit, complementary and +1024 differences weighted. Each (seed, language, A, B) is one non-trivial case.',
+          '(2) rapidcheck random (seed, language, A, B) with one-bit, complementary and +1024 differences weighted; one seed in six is patterned at the level of the word indices (equal words, boundary indices, coin A equal to a shown word, check word relations). Each (seed, language, A, B) is one non-trivial case.',
      required_classes={'any': ['rows', 'pairs', 'coin-pairs']},
      technique='exhaustive enumeration of all 2048x2047 ordered coin pairs per seed + property-based metamorphic testing (other coin => CHECKSUM, word-2-only difference)',
      level_text='All ordered coin pairs are enumerated for a few seeds per run; seeds and languages are sampled. Exploration.')
